@@ -14,8 +14,9 @@ def _engine(name):
     return importlib.import_module("sim." + name)
 
 
-class RunTimeout(Exception):
-    pass
+class RunTimeout(BaseException):
+    """BaseException: engine code that catches Exception (to record the outcome
+    of an executed artefact) must not swallow the wall-clock guard."""
 
 
 def _alarm(_sig, _frm):
@@ -90,6 +91,7 @@ def run_minimise(spec):
     case = spec["case"]
     sig = spec["signature"]
     budget = spec.get("budget_s", 60)
+    avoid = spec.get("avoid_known") or []
     t0 = time.time()
     tried = 0
     kept = 0
@@ -103,6 +105,12 @@ def run_minimise(spec):
             return None
         for v in r["violations"]:
             if v["signature"] == sig:
+                if avoid and hasattr(eng, "where_facts"):
+                    # never let shrinking morph an unlisted violation into the shape
+                    # of a known finding (it would then be masked)
+                    from sim import findings
+                    if findings.match(v["property"], sig, eng.where_facts(c, v), avoid) is not None:
+                        return None
                 return v
         return None
 
